@@ -8,6 +8,8 @@ package ts
 type Rewriter struct {
 	Site func(e Expr, kind string) (Expr, bool)
 	Name func(name string, role string) string
+	Decl func(d VarDecl) VarDecl // after the children were rebuilt
+	Func func(f FuncDef) FuncDef // after the children were rebuilt
 }
 
 func (rw *Rewriter) name(n, role string) string {
@@ -128,7 +130,11 @@ func (rw *Rewriter) stmt(s Stmt) Stmt {
 		if len(x.Vals) != len(x.Names) {
 			kind = "multi-call-init"
 		}
-		return VarDecl{Names: rw.names(x.Names), Ty: x.Ty, Tys: x.Tys, Form: x.Form, Vals: rw.exprs(x.Vals, kind)}
+		o := VarDecl{Names: rw.names(x.Names), Ty: x.Ty, Tys: x.Tys, Form: x.Form, Err: x.Err, Vals: rw.exprs(x.Vals, kind)}
+		if rw.Decl != nil {
+			o = rw.Decl(o)
+		}
+		return o
 	case Assign:
 		kind := "assigned-value"
 		if len(x.Vals) != len(x.Names) {
@@ -193,9 +199,12 @@ func (rw *Rewriter) stmt(s Stmt) Stmt {
 		}
 		return o
 	case FuncDef:
-		o := FuncDef{Name: rw.name(x.Name, "func"), Rets: x.Rets, NoParens: x.NoParens, Body: rw.Stmts(x.Body)}
+		o := FuncDef{Name: rw.name(x.Name, "func"), Rets: x.Rets, RetErr: x.RetErr, NoParens: x.NoParens, Body: rw.Stmts(x.Body)}
 		for _, p := range x.Params {
-			o.Params = append(o.Params, Param{Name: rw.name(p.Name, "param"), Ty: p.Ty})
+			o.Params = append(o.Params, Param{Name: rw.name(p.Name, "param"), Ty: p.Ty, Err: p.Err})
+		}
+		if rw.Func != nil {
+			o = rw.Func(o)
 		}
 		return o
 	}
